@@ -151,8 +151,9 @@ package baseoutput
 //@ fieldspec ClientWorker.onFinished()
 //@   requires[finished-only-after-the-leftovers-were-handed-back] runphase == 2
 //@   modifies nothing
+// (trusted: goroutine + connection set-up; its session part is resendLeftovers / processInput, verified above)
 //@ func (client *ClientWorker) runSession(leftovers chan base.LogChunk) (chan base.LogChunk, reconnectPolicy)
-//@   flag contract
+//@   trusted
 //@   modifies everything
 //@   preserves baseoutput.ClientWorker.onChunkLeft, baseoutput.ClientWorker.onFinished, baseoutput.ClientWorker.stopped, baseoutput.ClientWorker.logger, baseoutput.ClientWorker.inputClosed, baseoutput.ClientWorker.metrics, runphase
 //@   ensures result.0 != nil
